@@ -113,6 +113,14 @@ impl InterfaceUnit {
     pub fn validate_hash(&self) -> bool {
         self.interface_hash == self.compute_hash()
     }
+
+    /// An interface is usable only if it was written by this format version and ABI
+    /// and its recorded hash still matches its contents.
+    pub fn validate(&self) -> bool {
+        self.format_version == FORMAT_VERSION
+            && self.compiler_abi == COMPILER_ABI
+            && self.validate_hash()
+    }
 }
 
 #[derive(Debug, Clone, serde::Serialize, serde::Deserialize)]
@@ -144,7 +152,7 @@ impl CoreUnit {
         self.format_version == FORMAT_VERSION
             && self.compiler_abi == COMPILER_ABI
             && self.package == self.interface.package
-            && self.interface.validate_hash()
+            && self.interface.validate()
             && self.deps == self.interface.deps
     }
 }
